@@ -11,7 +11,7 @@
                      the spelling of TokString.code, which is its code already) with, in between, white-space tokens and
                      exactly the comments of l, same bytes outside white space.
    relex_text        from a source of the dialect through lexer model, parser model, writer model and lexer model again. *)
-From PV Require Import Base.Prelude Spec.LuaTokens Spec.LuaGrammar Spec.LuaLex Spec.SameCode Instances.HoldsC02 Instances.HoldsC01
+From PV Require Import Base.Prelude Spec.LuaTokens Spec.LuaGrammar Spec.LuaLex Spec.SameCode Spec.TokenDepth Instances.HoldsC02 Instances.HoldsC01
   Model.Tokens Model.Parser Model.ParserInst Model.WriterChunks Model.AstWriter Model.WriterDomain Model.FmtSpaces Model.FmtSpacesInst
   Proofs.LuaLexFacts Proofs.SpecLexChunk Proofs.MinifyRelex Proofs.MinifyCount
   Proofs.FmtSpacesProofs Proofs.FmtLinesProofs Proofs.FmtChunksProofs Proofs.FmtRelexAuto Proofs.FmtRelexLex
@@ -96,17 +96,58 @@ Proof.
 Qed.
 
 (* ====================================================================== renderings *)
+Local Notation dstate := FmtShape.dstate.
+
+(* the reference depth state along a token list, one token at a time *)
+Lemma depth_fold_step l : forall st n, depth_fold st l (S n) =
+  match nth_error l n with
+  | Some t => let s := depth_fold st l n in if tis_trivia t then s else tok_depth_after s t
+  | None => depth_fold st l n
+  end.
+Proof.
+  induction l as [|t r IH]; intros st n.
+  - destruct n; reflexivity.
+  - destruct n as [|n].
+    + cbn [depth_fold nth_error]. destruct r; reflexivity.
+    + change (depth_fold st (t :: r) (S (S n))) with (depth_fold (if tis_trivia t then st else tok_depth_after st t) r (S n)).
+      rewrite IH. cbn [nth_error depth_fold]. reflexivity.
+Qed.
+
+Lemma db_step ts q t : 0 <= q -> nth_error ts (Z.to_nat q) = Some t ->
+  depth_before ts (q + 1) = if tis_trivia t then depth_before ts q else tok_depth_after (depth_before ts q) t.
+Proof.
+  intros Hq H. unfold depth_before. replace (Z.to_nat (q + 1)) with (S (Z.to_nat q)) by lia.
+  rewrite depth_fold_step, H. reflexivity.
+Qed.
+
+Lemma db_trivia ts run : forall q, 0 <= q -> run = firstn (length run) (skipn (Z.to_nat q) ts) -> forallb tis_trivia run = true ->
+  depth_before ts (q + zlen run) = depth_before ts q.
+Proof.
+  induction run as [|t r IH]; intros q Hq H1 H2; [rewrite zlen_nil; f_equal; lia|].
+  cbn [forallb] in H2. apply andb_true_iff in H2. destruct H2 as [Ht Hr]. cbn [length firstn] in H1.
+  destruct (skipn (Z.to_nat q) ts) as [|u rest] eqn:Es; [discriminate H1|]. injection H1 as <- H1.
+  assert (Hn : nth_error ts (Z.to_nat q) = Some t).
+  { rewrite <- (Nat.add_0_r (Z.to_nat q)), <- nth_error_skipn, Es. reflexivity. }
+  assert (Er : rest = skipn (Z.to_nat (q + 1)) ts).
+  { replace (Z.to_nat (q + 1)) with (Z.to_nat q + 1)%nat by lia. rewrite <- skipn_plus, Es. reflexivity. }
+  rewrite zlen_cons. replace (q + (1 + zlen r)) with (q + 1 + zlen r) by lia.
+  rewrite (IH (q + 1)); [|lia | rewrite <- Er; exact H1 | exact Hr]. rewrite (db_step ts q t Hq Hn), Ht. reflexivity.
+Qed.
+
 Section Rend.
 Variable W : spaces_fn.
+(* what is known of the indent a run was written with: a predicate of the depth state before the run, the indent, and the
+   tokens that follow the run (True for the C09 theorems; the reference depth for the idempotence theorem) *)
+Variable Pind : dstate -> Z -> list token -> Prop.
 
-Inductive rend : Z -> list token -> list Z -> Prop :=
-| rend_nil q : rend q [] []
-| rend_code q t l out : tis_trivia t = false -> rend (q + 1) l out -> rend q (t :: l) (tcode t ++ out)
-| rend_run q ind T l out : T <> [] -> forallb tis_trivia T = true ->
-    match l with [] => True | u :: _ => tis_trivia u = false end ->
-    rend (q + zlen T) l out ->
-    rend q (T ++ l) (W q ind (match l with [] => true | _ => false end) T ++ out)
-| rend_empty q ind e l out : rend q l out -> rend q l (W q ind e [] ++ out).
+Inductive rend : dstate -> Z -> list token -> list Z -> Prop :=
+| rend_nil st q : rend st q [] []
+| rend_code st q t l out : tis_trivia t = false -> rend (tok_depth_after st t) (q + 1) l out -> rend st q (t :: l) (tcode t ++ out)
+| rend_run st q ind T l out : T <> [] -> forallb tis_trivia T = true ->
+    match l with [] => True | u :: _ => tis_trivia u = false end -> Pind st ind l ->
+    rend st (q + zlen T) l out ->
+    rend st q (T ++ l) (W q ind (match l with [] => true | _ => false end) T ++ out)
+| rend_empty st q ind e l out : rend st q l out -> rend st q l (W q ind e [] ++ out).
 
 Lemma sig_codes_trivia run : forall l i, forallb tis_trivia run = true -> sig_codes (run ++ l) i = sig_codes l (i + zlen run).
 Proof.
@@ -132,21 +173,29 @@ Qed.
 Lemma skipn_firstn_split {A} (l : list A) q k : skipn q l = firstn k (skipn q l) ++ skipn (q + k) l.
 Proof. rewrite <- (firstn_skipn k (skipn q l)) at 1. f_equal. apply skipn_plus. Qed.
 
+Definition ind_known (ts : list token) (c : chunk) : Prop :=
+  match c with
+  | Trivia s ind _ run => run <> [] -> Pind (depth_before ts s) ind (skipn (Z.to_nat (s + zlen run)) ts)
+  | Code _ _ => True
+  end.
+
 Lemma tiling_rend (ts : list token) q cs p : tiling ts q cs p -> 0 <= q -> p = zlen ts -> Forall (good_end ts) cs ->
-  codes_of cs = sig_codes (skipn (Z.to_nat q) ts) q -> rend q (skipn (Z.to_nat q) ts) (chunks_text W cs).
+  Forall (ind_known ts) cs ->
+  codes_of cs = sig_codes (skipn (Z.to_nat q) ts) q -> rend (depth_before ts q) q (skipn (Z.to_nat q) ts) (chunks_text W cs).
 Proof.
-  induction 1 as [q|q ind e run cs p H1 H2 H3 H4 IH|q text cs p H IH]; intros Hq Hp Hg Hc.
+  induction 1 as [q|q ind e run cs p H1 H2 H3 H4 IH|q text cs p H IH]; intros Hq Hp Hg Hk Hc.
   - subst q. rewrite skipn_all2 by (unfold zlen; lia). constructor.
-  - inversion Hg as [|c0 l0 Hg1 Hg2]; subst c0 l0. pose proof (tiling_mono ts _ _ _ H4) as Hm. pose proof (zlen_nonneg run) as Hr0.
+  - inversion Hg as [|c0 l0 Hg1 Hg2]; subst c0 l0. inversion Hk as [|c0 l0 Hk1 Hk2]; subst c0 l0.
+    pose proof (tiling_mono ts _ _ _ H4) as Hm. pose proof (zlen_nonneg run) as Hr0.
     unfold chunks_text. cbn [flat_map chunk_text]. fold (chunks_text W cs).
     assert (Hd : run = [] \/ run <> []) by (destruct run; [left; reflexivity | right; discriminate]).
     destruct Hd as [->|Hne].
-    + rewrite zlen_nil in *. replace (q + 0) with q in * by lia. apply rend_empty. apply IH; [lia | exact Hp | exact Hg2 | exact Hc].
+    + rewrite zlen_nil in *. replace (q + 0) with q in * by lia. apply rend_empty. apply IH; [lia | exact Hp | exact Hg2 | exact Hk2 | exact Hc].
     + assert (Hsk : skipn (Z.to_nat q) ts = run ++ skipn (Z.to_nat (q + zlen run)) ts).
       { rewrite (skipn_firstn_split ts (Z.to_nat q) (length run)), <- H1. do 2 f_equal. unfold zlen. lia. }
       cbn [codes_of flat_map app] in Hc. fold (codes_of cs) in Hc.
       rewrite Hsk, sig_codes_trivia in Hc by exact H2.
-      specialize (IH ltac:(lia) Hp Hg2 Hc).
+      specialize (IH ltac:(lia) Hp Hg2 Hk2 Hc). rewrite (db_trivia ts run q Hq H1 H2) in IH.
       rewrite Hsk.
       assert (He : e = match skipn (Z.to_nat (q + zlen run)) ts with [] => true | _ => false end /\
                    match skipn (Z.to_nat (q + zlen run)) ts with [] => True | u :: _ => tis_trivia u = false end).
@@ -155,8 +204,8 @@ Proof.
           destruct (q + zlen run <? 0) eqn:E0; [discriminate|]. rewrite (skipn_nth _ _ _ Hu). split; [|exact Hut].
           assert (Hn : nth_error ts (Z.to_nat (q + zlen run)) <> None) by congruence. apply nth_error_Some in Hn. rewrite H3. apply Z.eqb_neq. unfold zlen in *. lia.
         - rewrite skipn_all2 by (unfold zlen in *; lia). split; [rewrite H3; apply Z.eqb_eq; exact Hg1 | exact I]. }
-      destruct He as [He1 He2]. rewrite He1. apply rend_run; assumption.
-  - inversion Hg as [|c0 l0 Hg1 Hg2]; subst c0 l0. pose proof (tiling_mono ts _ _ _ H) as Hm.
+      destruct He as [He1 He2]. rewrite He1. apply rend_run; try assumption. exact (Hk1 Hne).
+  - inversion Hg as [|c0 l0 Hg1 Hg2]; subst c0 l0. inversion Hk as [|c0 l0 Hk1 Hk2]; subst c0 l0. pose proof (tiling_mono ts _ _ _ H) as Hm.
     unfold chunks_text. cbn [flat_map chunk_text]. fold (chunks_text W cs).
     cbn [codes_of flat_map app] in Hc. fold (codes_of cs) in Hc.
     destruct (skipn (Z.to_nat q) ts) as [|t l] eqn:Esk; [discriminate Hc|].
@@ -165,7 +214,11 @@ Proof.
     cbn [sig_codes] in Hc. destruct (tis_trivia t) eqn:Et.
     + exfalso. assert (Hin : In (q, text) (sig_codes l (q + 1))) by (rewrite <- Hc; left; reflexivity).
       apply sig_codes_ge in Hin. lia.
-    + injection Hc as -> Hc. apply rend_code; [exact Et|]. rewrite El. apply IH; [lia | exact Hp | exact Hg2 | rewrite <- El; exact Hc].
+    + injection Hc as -> Hc. apply rend_code; [exact Et|].
+      assert (Hn : nth_error ts (Z.to_nat q) = Some t).
+      { rewrite <- (Nat.add_0_r (Z.to_nat q)), <- nth_error_skipn, Esk. reflexivity. }
+      pose proof (db_step ts q t Hq Hn) as Hdb. rewrite Et in Hdb. rewrite <- Hdb.
+      rewrite El. apply IH; [lia | exact Hp | exact Hg2 | exact Hk2 | rewrite <- El; exact Hc].
 Qed.
 
 (* ====================================================================== the main induction *)
@@ -280,33 +333,53 @@ Lemma Forall2_app_inv_r' {A B} (R : A -> B -> Prop) l l1 l2 : Forall2 R l (l1 ++
   exists a b, l = a ++ b /\ Forall2 R a l1 /\ Forall2 R b l2.
 Proof. intros H. apply Forall2_app_inv_r in H. destruct H as (a & b & H1 & H2 & ->). eauto. Qed.
 
-Lemma rend_nil_out q out : (forall s ind e, W s ind e [] = []) -> rend q [] out -> out = [].
+Lemma rend_nil_out st q out : (forall s ind e, W s ind e [] = []) -> rend st q [] out -> out = [].
 Proof.
-  intros Hn H. remember [] as l eqn:El. induction H as [q|q t l out Ht H IH|q ind T l out HT1 HT2 Hl H IH|q ind e l out H IH].
+  intros Hn H. remember [] as l eqn:El. induction H as [st q|st q t l out Ht H IH|st q ind T l out HT1 HT2 Hl HP H IH|st q ind e l out H IH].
   - reflexivity.
   - discriminate El.
   - apply app_eq_nil in El. destruct El as [-> _]. congruence.
   - subst l. rewrite Hn. cbn [app]. apply IH; [reflexivity | exact Hn].
 Qed.
 
-Theorem relex_rend (G : good_spaces W) q l out : rend q l out -> 0 <= q ->
+(* how the new reference tokens lie against the old tokens: a code token for a code token (same class and code), for a run
+   of the old list the trivia tokens whose text is what the spaces function wrote for the run *)
+Inductive rr : dstate -> Z -> list token -> list stok -> Prop :=
+| rr_nil st q : rr st q [] []
+| rr_code st q t l s' ss' : tis_trivia t = false -> pks s' = pkt t ->
+    rr (tok_depth_after st t) (q + 1) l ss' -> rr st q (t :: l) (s' :: ss')
+| rr_run st q ind T l toks ss' : T <> [] -> forallb tis_trivia T = true ->
+    match l with [] => True | u :: _ => tis_trivia u = false end -> Pind st ind l ->
+    Forall trivial toks -> rawtxt toks = W q ind (match l with [] => true | _ => false end) T ->
+    rr st (q + zlen T) l ss' -> rr st q (T ++ l) (toks ++ ss').
+
+Definition code_is_raw (s : stok) : Prop := spec_code s = s_raw s.
+
+Lemma norm_code_raw s src rest : spec_step src = Some (s, rest) -> sis_trivia s = false -> code_is_raw (norm_tok s).
+Proof.
+  intros H Hs. unfold code_is_raw. pose proof (f_equal snd (pks_norm s _ _ H)) as Hc. cbn [snd pks] in Hc. rewrite Hc.
+  unfold norm_tok. destruct (s_kind s) eqn:K; try (unfold spec_code; rewrite K; reflexivity).
+  destruct (s_long s <? 0) eqn:El; [reflexivity|]. unfold spec_code. rewrite K, El. reflexivity.
+Qed.
+
+Theorem relex_rend (G : good_spaces W) st q l out : rend st q l out -> 0 <= q ->
   forall ss, Forall2 corr ss l -> chain (rawtxt ss) ss -> Forall codeok ss ->
   exists ss', chain out ss' /\ crlf_only out = true /\ cv (map pks ss') = cv (map pks ss) /\ hdconc q l (rawtxt ss) out /\
-              forall seen, nlk seen (skinds ss') = nlk seen (skinds ss).
+              (forall seen, nlk seen (skinds ss') = nlk seen (skinds ss)) /\ rr st q l ss' /\ Forall code_is_raw ss'.
 Proof.
-  induction 1 as [q|q t l out Ht H IH|q ind T l out HT1 HT2 Hl H IH|q ind e l out H IH]; intros Hq ss Hcorr Hch Hok.
+  induction 1 as [st q|st q t l out Ht H IH|st q ind T l out HT1 HT2 Hl HP H IH|st q ind e l out H IH]; intros Hq ss Hcorr Hch Hok.
   - inversion Hcorr; subst. exists []. repeat split; constructor.
   - (* a code token *)
     inversion Hcorr as [|s t' ss1 l' Hst Hc1]; subst. inversion Hch as [|s0 t0 rest ts0 Hstep Hch1]; subst.
     pose proof (chain_txt _ _ Hch1) as Hrest. subst rest. inversion Hok as [|? ? Hok0 Hok1]; subst.
-    destruct (IH ltac:(lia) ss1 Hc1 Hch1 Hok1) as (ss1' & Hc' & Hcr' & Hv' & Hh' & Hnl').
+    destruct (IH ltac:(lia) ss1 Hc1 Hch1 Hok1) as (ss1' & Hc' & Hcr' & Hv' & Hh' & Hnl' & Hrr' & Hraw').
     assert (Hsig : sis_trivia s = false) by (rewrite <- (corr_trivia s t Hst); exact Ht).
     destruct Hst as [Hk Hcode].
     assert (Hrel : hdrel (rawtxt ss1) out).
     { unfold hdconc in Hh'. destruct l as [|u l1]; [right; left; exact Hh'|].
       destruct (tis_trivia u); [apply Hh'; lia | left; exact Hh']. }
     pose proof (sig_relex _ _ _ out Hstep Hsig Hrel) as Hnew.
-    exists (norm_tok s :: ss1'). split; [|split; [|split; [|split]]].
+    exists (norm_tok s :: ss1'). split; [|split; [|split; [|split; [|split; [|split]]]]].
     + rewrite Hcode. econstructor; eassumption.
     + rewrite Hcode. destruct Hok0 as [O1 O2]. apply EchoProofs.crlf_only_app_intro; assumption.
     + cbn [map]. rewrite (pks_norm s _ _ Hstep).
@@ -318,12 +391,14 @@ Proof.
     + intros seen. cbn [skinds map]. fold (skinds ss1') (skinds ss1).
       pose proof (f_equal fst (pks_norm s _ _ Hstep)) as Hkk. cbn [fst pks] in Hkk. rewrite Hkk.
       unfold sis_trivia in Hsig. destruct (s_kind s); try discriminate Hsig; cbn [kc nlk]; rewrite Hnl'; reflexivity.
+    + apply rr_code; [exact Ht | | exact Hrr']. rewrite (pks_norm s _ _ Hstep). unfold pks, pkt. rewrite Hk, Hcode. reflexivity.
+    + constructor; [eapply norm_code_raw; eassumption | exact Hraw'].
   - (* a run of white space and comments *)
     destruct (Forall2_app_inv_r' _ _ _ _ Hcorr) as (ssT & ssl & -> & HcT & Hcl).
     destruct (chain_seg _ _ _ Hch) as [Hseg Hchl]. rewrite rawtxt_app in Hseg.
     apply Forall_app in Hok. destruct Hok as [HokT Hokl].
     pose proof (zlen_nonneg T) as HzT.
-    destruct (IH ltac:(lia) ssl Hcl Hchl Hokl) as (ssl' & Hc' & Hcr' & Hv' & Hh' & Hnl').
+    destruct (IH ltac:(lia) ssl Hcl Hchl Hokl) as (ssl' & Hc' & Hcr' & Hv' & Hh' & Hnl' & Hrr' & Hraw').
     assert (HtrT : Forall trivial ssT).
     { clear -HcT HT2. induction HcT as [|s t a b Hst _ IH]; [constructor|]. cbn [forallb] in HT2.
       apply andb_true_iff in HT2. destruct HT2 as [H1 H2]. constructor; [|apply IH, H2].
@@ -358,7 +433,9 @@ Proof.
     { intros HEL. specialize (HE HEL). destruct Hnext as [(_ & _ & ->)|(c & o1 & o2 & E1 & _)]; [reflexivity | congruence]. }
     destruct (arun_seg (length X) X (le_n _) ([], false) out _ _ HrunX HcrXo Hsc HEo) as (toks & Hsg & Htr & Hvw0).
     rewrite !addtoks_spec in Hvw0. cbn [fst snd app orb] in Hvw0. injection Hvw0 as Hvw Hnlw.
-    exists (toks ++ ssl'). split; [|split; [|split; [|split]]].
+    assert (HtxtX : rawtxt toks = X).
+    { pose proof (seg_txt _ _ _ Hsg) as Etx. apply app_inv_tail in Etx. symmetry. exact Etx. }
+    exists (toks ++ ssl'). split; [|split; [|split; [|split; [|split; [|split]]]]].
     + eapply seg_chain; eassumption.
     + exact HcrXo.
     + rewrite !map_app, !cv_app, Hv'. f_equal. rewrite (cv_trivia _ Htr), (cv_trivia _ HtrT), Hvw. reflexivity.
@@ -378,6 +455,8 @@ Proof.
         -- left. exists c. eexists. eexists. split; [|reflexivity]. cbn [app]. rewrite rawtxt_cons, Hr1. cbn [app].
            rewrite Hc1, Hr2 in Hc. cbn [hd] in Hc. subst c. reflexivity.
     + intros seen. rewrite !skinds_app, (nlk_trivia _ Htr), (nlk_trivia _ HtrT), Hnlw. apply Hnl'.
+    + eapply rr_run; try eassumption.
+    + apply Forall_app. split; [|exact Hraw']. eapply Forall_impl; [|exact Htr]. intros a Ha. apply trivial_code, Ha.
   - rewrite (gs_nil W G). cbn [app]. apply IH; assumption.
 Qed.
 End Rend.
@@ -396,9 +475,9 @@ Proof.
   apply escape_bytes_bytes; [exact Hq|]. apply bytesb_Forall, Htxt; [reflexivity | lia].
 Qed.
 
-Lemma rend_bytes W (G : good_spaces W) q l out : rend W q l out -> Forall (fun t => Forall byte (tcode t)) l -> Forall byte out.
+Lemma rend_bytes W Pind (G : good_spaces W) st q l out : rend W Pind st q l out -> Forall (fun t => Forall byte (tcode t)) l -> Forall byte out.
 Proof.
-  induction 1 as [q|q t l out Ht H IH|q ind T l out HT1 HT2 Hl H IH|q ind e l out H IH]; intros HB.
+  induction 1 as [st q|st q t l out Ht H IH|st q ind T l out HT1 HT2 Hl HP H IH|st q ind e l out H IH]; intros HB.
   - constructor.
   - inversion HB; subst. apply Forall_app. split; [assumption | apply IH; assumption].
   - apply Forall_app in HB. destruct HB as [HB1 HB2]. apply Forall_app. split; [|apply IH, HB2].
@@ -461,6 +540,55 @@ Proof.
   destruct k; reflexivity.
 Qed.
 
+(* the core: from the aligned chunk list of the writer *)
+Theorem relex_core W Pind : good_spaces W -> forall src ss0 lts cs,
+  Forall byte src -> spec_lex src = Some ss0 -> Lexer.model_lex [src] = Ok lts ->
+  tiling (map lex_token lts) 0 cs (zlen (map lex_token lts)) -> Forall (good_end (map lex_token lts)) cs ->
+  codes_of cs = sig_codes (map lex_token lts) 0 -> Forall (ind_known Pind (map lex_token lts)) cs ->
+  exists ss1 lts',
+    Forall byte (chunks_text W cs) /\ spec_lex (chunks_text W cs) = Some ss1 /\
+    Lexer.model_lex [chunks_text W cs] = Ok lts' /\ same_code (map lex_token lts) (map lex_token lts') = true /\
+    nl_before (map lex_token lts') = nl_before (map lex_token lts) /\
+    rr W Pind (FmtShape.mk_dstate 0 0) 0 (map lex_token lts) (map unpos ss1) /\ Forall code_is_raw (map unpos ss1) /\
+    Forall2 corr (map unpos ss1) (map lex_token lts') /\ chunks_text W cs = rawtxt (map unpos ss1).
+Proof.
+  intros G src ss0 lts cs HB Hs Hm Htil Hg Hcd Hik.
+  destruct (LexerView.lex_agrees_code src ss0 HB Hs) as (lts0 & Hm0 & Hcodes & _).
+  rewrite Hm in Hm0. injection Hm0 as <-.
+  destruct (agrees_corr ss0 lts Hcodes) as [Hcorr Hpk].
+  destruct (EchoRelexSpec.spec_lex_chain src ss0 Hs) as [Hcr Hch].
+  set (ts := map lex_token lts) in *. set (ss := map unpos ss0) in *.
+  pose proof (chain_txt _ _ Hch) as Htxt.
+  assert (Hok : Forall codeok ss).
+  { unfold ss. pose proof (codes_crlf_ok src ss0 HB Hs) as H. clear -H. induction H; cbn [map]; constructor; assumption. }
+  assert (Hrend : rend W Pind (depth_before ts 0) 0 ts (chunks_text W cs)).
+  { apply (tiling_rend W Pind ts 0 cs (zlen ts) Htil); [lia | reflexivity | exact Hg | exact Hik | exact Hcd]. }
+  assert (HS0 : depth_before ts 0 = FmtShape.mk_dstate 0 0) by (unfold depth_before; destruct ts; reflexivity).
+  rewrite HS0 in Hrend.
+  rewrite Htxt in Hch.
+  destruct (relex_rend W Pind G _ 0 ts _ Hrend ltac:(lia) ss Hcorr Hch Hok) as (ss' & Hch' & Hcr' & Hv & _ & Hnl & Hrr & Hraw).
+  set (out := chunks_text W cs) in *.
+  destruct (EchoRelexSpec.chain_spec_lex out ss' Hcr' Hch') as (ss1 & Hs1 & Hu1).
+  assert (HBo : Forall byte out).
+  { apply (rend_bytes W Pind G _ 0 ts out Hrend). rewrite <- Htxt in Hch.
+    pose proof (chain_bytes _ _ Hch HB) as Htb. clear -Htb Hcorr. induction Hcorr as [|s t a b Hst _ IH]; [constructor|].
+    inversion Htb; subst. constructor; [|apply IH; assumption]. destruct Hst as [_ ->]. apply code_bytes. assumption. }
+  destruct (LexerView.lex_agrees_code out ss1 HBo Hs1) as (lts' & Hm' & Hcodes' & _).
+  destruct (agrees_corr ss1 lts' Hcodes') as [Hcorr' Hpk'].
+  exists ss1, lts'. split; [exact HBo|]. split; [exact Hs1|]. split; [exact Hm'|]. rewrite Hu1. split; [|split; [|split; [|split; [|split]]]].
+  - unfold same_code. rewrite !code_view_cv. fold ts. rewrite Hpk, Hpk', Hu1. fold ss. rewrite Hv. apply view_eqb_refl.
+  - unfold nl_before. rewrite !nl_before_from_nlk. fold ts.
+    assert (Hk : forall a b, map pkt a = map pks b -> map tk a = skinds b).
+    { intros a b H. apply (f_equal (map fst)) in H. rewrite !map_map in H. exact H. }
+    rewrite (Hk _ _ Hpk), (Hk _ _ Hpk'), Hu1. fold ss. apply Hnl.
+  - exact Hrr.
+  - exact Hraw.
+  - rewrite <- Hu1. exact Hcorr'.
+  - apply chain_txt, Hch'.
+Qed.
+
+Definition Ptrue : FmtShape.dstate -> Z -> list token -> Prop := fun _ _ _ => True.
+
 Theorem relex_text W : good_spaces W -> forall src ss0 lts root e,
   Forall byte src -> spec_lex src = Some ss0 -> Lexer.model_lex [src] = Ok lts ->
   lua_parse (map lex_token lts) = Ok (root, e) -> consumed (map lex_token lts) e = true ->
@@ -471,34 +599,11 @@ Theorem relex_text W : good_spaces W -> forall src ss0 lts root e,
     nl_before (map lex_token lts') = nl_before (map lex_token lts).
 Proof.
   intros G src ss0 lts root e HB Hs Hm Hp Hc Hw.
-  destruct (LexerView.lex_agrees_code src ss0 HB Hs) as (lts0 & Hm0 & Hcodes & _).
-  rewrite Hm in Hm0. injection Hm0 as <-.
-  destruct (agrees_corr ss0 lts Hcodes) as [Hcorr Hpk].
-  destruct (EchoRelexSpec.spec_lex_chain src ss0 Hs) as [Hcr Hch].
-  set (ts := map lex_token lts) in *. set (ss := map unpos ss0) in *.
-  pose proof (chain_txt _ _ Hch) as Htxt.
-  assert (Hok : Forall codeok ss).
-  { unfold ss. pose proof (codes_crlf_ok src ss0 HB Hs) as H. clear -H. induction H; cbn [map]; constructor; assumption. }
-  destruct (writer_aligned_good ts root e Hp Hc Hw) as (cs & Hcs & Hcd & Htil & Hg).
-  assert (Hrend : rend W 0 ts (chunks_text W cs)).
-  { apply (tiling_rend W ts 0 cs (zlen ts) Htil); [lia | reflexivity | exact Hg | exact Hcd]. }
-  rewrite Htxt in Hch.
-  destruct (relex_rend W G 0 ts _ Hrend ltac:(lia) ss Hcorr Hch Hok) as (ss' & Hch' & Hcr' & Hv & _ & Hnl).
-  set (out := chunks_text W cs) in *.
-  destruct (EchoRelexSpec.chain_spec_lex out ss' Hcr' Hch') as (ss1 & Hs1 & Hu1).
-  assert (HBo : Forall byte out).
-  { apply (rend_bytes W G 0 ts out Hrend). rewrite <- Htxt in Hch.
-    pose proof (chain_bytes _ _ Hch HB) as Htb. clear -Htb Hcorr. induction Hcorr as [|s t a b Hst _ IH]; [constructor|].
-    inversion Htb; subst. constructor; [|apply IH; assumption]. destruct Hst as [_ ->]. apply code_bytes. assumption. }
-  destruct (LexerView.lex_agrees_code out ss1 HBo Hs1) as (lts' & Hm' & Hcodes' & _).
-  destruct (agrees_corr ss1 lts' Hcodes') as [_ Hpk'].
-  exists out, ss1, lts'. split; [unfold writer_text; rewrite Hcs; reflexivity|]. split; [exact HBo|]. split; [exact Hs1|].
-  split; [exact Hm'|]. split.
-  - unfold same_code. rewrite !code_view_cv. fold ts. rewrite Hpk, Hpk', Hu1. fold ss. rewrite Hv. apply view_eqb_refl.
-  - unfold nl_before. rewrite !nl_before_from_nlk. fold ts.
-    assert (Hk : forall a b, map pkt a = map pks b -> map tk a = skinds b).
-    { intros a b H. apply (f_equal (map fst)) in H. rewrite !map_map in H. exact H. }
-    rewrite (Hk _ _ Hpk), (Hk _ _ Hpk'), Hu1. fold ss. apply Hnl.
+  destruct (writer_aligned_good (map lex_token lts) root e Hp Hc Hw) as (cs & Hcs & Hcd & Htil & Hg).
+  assert (Hik : Forall (ind_known Ptrue (map lex_token lts)) cs).
+  { apply Forall_forall. intros c _. destruct c; cbn; intros; exact I. }
+  destruct (relex_core W Ptrue G src ss0 lts cs HB Hs Hm Htil Hg Hcd Hik) as (ss1 & lts' & H1 & H2 & H3 & H4 & H5 & _).
+  exists (chunks_text W cs), ss1, lts'. split; [unfold writer_text; rewrite Hcs; reflexivity|]. auto.
 Qed.
 
 (* the statements of Properties/C09.v *)
